@@ -97,12 +97,12 @@ def _check_main(run, P):
     run.rule("C18.table", "the assignment table is created once per top-level call, "
              "before the traversal, and afterwards only receives entries; every "
              "variable obtained from new_var_func() is entered into it", minimum=2)
-    _stack(run, P)
-    _const(run, P)
-    _pair(run, P)
-    _free(run, P)
-    _table(run, P)
-    _regroup_classes(run, P)
+    run.do(_stack, run, P)
+    run.do(_const, run, P)
+    run.do(_pair, run, P)
+    run.do(_free, run, P)
+    run.do(_table, run, P)
+    run.do(_regroup_classes, run, P)
 
 
 def _stack(run, P):
